@@ -43,6 +43,10 @@ let () =
   let cur_id = ref "" and cur_n = ref 0 and cur_w = ref false in
   let ds = ref [] and qs = ref [] and fs = ref [] and kind = ref "C" and cur_uf = ref false in
   let bound = ref 0 and wits = ref [] in
+  let chars = ref [] and pmode = ref "f" in
+  let rec str_of_form = function FTop -> "T" | FBot -> "F" | FVar i -> "v" ^ string_of_int (int_of_nat i) | FNot f -> "! " ^ str_of_form f
+    | FAnd (f, g) -> "& " ^ str_of_form f ^ " " ^ str_of_form g | FOr (f, g) -> "| " ^ str_of_form f ^ " " ^ str_of_form g in
+  let str_of_name nm = String.concat "" (List.map (fun c -> String.make 1 (Char.chr (int_of_nat c))) nm) in
   let tbl = ref [] and rops = ref [] and zops = ref [] and zext = ref None in
   let bits s = List.init (String.length s) (fun i -> s.[i] = '1') in
   let str_of_world w = String.concat "" (List.map (fun b -> if b then "1" else "0") w) in
@@ -64,6 +68,8 @@ let () =
            kind := "G"; cur_id := id; cur_n := int_of_string n; cur_w := (w = "1"); cur_uf := (uf = "1"); ds := []; fs := []
        | "I" :: id :: n :: b :: _ -> kind := "I"; cur_id := id; cur_n := int_of_string n; bound := int_of_string b; ds := []; qs := []; wits := []
        | "X" :: qi :: r -> wits := (nat_of_int (int_of_string qi), List.map (fun t -> nat_of_int (int_of_string t)) r) :: !wits
+       | "P" :: id :: m :: _ -> kind := "P"; cur_id := id; pmode := m; chars := []
+       | "T" :: r -> chars := List.rev_append (List.map (fun t -> nat_of_int (int_of_string t)) r) !chars
        | "R" :: id :: n :: _ -> kind := "R"; cur_id := id; cur_n := int_of_string n; tbl := []; rops := []
        | "W" :: b :: r :: _ -> tbl := (bits b, (if r = "-" then None else Some (nat_of_int (int_of_string r)))) :: !tbl
        | "OF" :: r -> rops := ("F", r) :: !rops
@@ -90,7 +96,21 @@ let () =
        | "D" :: r -> ds := parse_cond r :: !ds
        | "Q" :: r -> qs := parse_cond r :: !qs
        | "E" :: _ ->
-           if !kind = "R" then begin
+           if !kind = "P" then begin
+             let cs = List.rev !chars in
+             if !pmode = "f" then
+               (match run_parse_formula cs with
+                | None -> Printf.printf "%s\tERR\n" !cur_id
+                | Some (f, names) -> Printf.printf "%s\tOK\t%s\t%s\n" !cur_id (str_of_form f) (String.concat "," (List.map str_of_name names)))
+             else
+               (match (if !pmode = "b" then run_parse_file cs else run_parse_queries cs) with
+                | None -> Printf.printf "%s\tERR\n" !cur_id
+                | Some (p, names) ->
+                    let conds = String.concat "#" (List.map (fun ((((k, b), a), bt), at_) ->
+                        string_of_int (int_of_nat k) ^ "~" ^ str_of_form b ^ "~" ^ str_of_form a ^ "~" ^ str_of_name (run_cond_text bt at_)) p.pf_conds) in
+                    Printf.printf "%s\tOK\t%s\t%s\t%s\t%s\n" !cur_id (String.concat "," (List.map str_of_name p.pf_sig)) (str_of_name p.pf_name) conds
+                      (String.concat "," (List.map str_of_name names)))
+           end else if !kind = "R" then begin
              let t = List.rev !tbl in
              let pf r = let (f, rest) = parse_form r in if rest <> [] then failwith "op: trailing"; f in
              List.iteri (fun i (k, r) ->
